@@ -240,7 +240,8 @@ def strategy_scaling(res, tier, rng, replay):
         factors = [tuple(rp['factors'])]
     else:
         cases = cs.gen_strat_cases(rng, tier, per=(5 if tier == 'quick' else 30))
-        for wname in cs.WRAPPED:
+        # … and Stop-Loss decorators over the whole range of percentages (0.5 %, 30 %, and 100 % or more: a stop that is never reached)
+        for wname in list(cs.WRAPPED) + ['StopLossP0.005:Macd', 'StopLossP0.3:SuperTrend', 'StopLossP1:Macd', 'StopLossP2.5:SuperTrend', 'StopLossP1.5:Rsi']:
             for _ in range(3 if tier == 'quick' else 15):
                 o, regime = gen_ohlcv(rng, rng.randrange(12, 90), rng.choice(['walk', 'wide', 'zigzag', 'down', 'up', 'ties']))
                 cases.append((wname, [], [], o, regime))
@@ -248,7 +249,8 @@ def strategy_scaling(res, tier, rng, replay):
     lines, meta = [], []
     for i, c in enumerate(cases):
         name, ns, fs, o, regime = c
-        fl = factors or [(2.0 ** rng.choice([-20, -14, -10, -3, 1, 7, 15]), 1.0), (1.0, 2.0 ** rng.choice([-20, -8, 1, 12])),
+        # a smaller and a larger currency unit (an absolute threshold shows in one direction only), another volume unit, both
+        fl = factors or [(2.0 ** rng.choice([-20, -14, -10, -3]), 1.0), (2.0 ** rng.choice([1, 7, 15, 20]), 1.0), (1.0, 2.0 ** rng.choice([-20, -8, 1, 12])),
                          (2.0 ** rng.choice([-17, -12, 4]), 2.0 ** rng.choice([-6, 9]))]
         lines.append('q%d_b %s' % (i, cs.strat_line(name, ns, fs, o)))
         for j, (cp, cv) in enumerate(fl):
